@@ -212,6 +212,8 @@ def run(ctx, R, tier):
                         fbad.append((call, "reaches the import/exec/IO primitive %s" % nm))
                     elif nm in ALLOWED_EXT or nm.startswith(ALLOWED_EXT_PREFIX) or nm.rsplit(".", 1)[-1] in ALLOWED_UNKNOWN_ATTRS or nm.endswith(".__new__"):
                         continue
+                    elif nm.startswith("builtins.") and nm.split(".")[1] not in ("input", "breakpoint", "help", "print", "memoryview", "super", "classmethod", "staticmethod", "property"):
+                        continue     # data-only builtins (int.from_bytes, bytes.fromhex, min, max, ...); the dangerous ones were refused above
                     elif id(call) in raise_calls:
                         continue
                     else:
